@@ -8,6 +8,7 @@ import (
 	"github.com/AdguardTeam/dnsproxy/proxy"
 	"github.com/AdguardTeam/golibs/errors"
 	"github.com/AdguardTeam/golibs/log"
+	"github.com/AdguardTeam/golibs/netutil"
 	"github.com/miekg/dns"
 )
 
@@ -75,6 +76,13 @@ func (s *Server) clientIDFromDNSContext(pctx *proxy.DNSContext) (clientID string
 		if err != nil {
 			return "", fmt.Errorf("checking url: %w", err)
 		} else if clientID != "" {
+			// The ClientID of the path takes precedence over the one of the
+			// server name, but the strict check applies to the latter anyway.
+			err = s.validateStrictServerName(pctx, proto)
+			if err != nil {
+				return "", fmt.Errorf("clientid check: %w", err)
+			}
+
 			return clientID, nil
 		}
 
@@ -103,6 +111,31 @@ func (s *Server) clientIDFromDNSContext(pctx *proxy.DNSContext) (clientID string
 	}
 
 	return clientID, nil
+}
+
+// validateStrictServerName returns an error if the strict server-name check is
+// enabled and the server name sent by the client is neither the configured one
+// nor its immediate subdomain.
+func (s *Server) validateStrictServerName(pctx *proxy.DNSContext, proto proxy.Proto) (err error) {
+	hostSrvName := s.conf.TLSConf.ServerName
+	if hostSrvName == "" || !s.conf.TLSConf.StrictSNICheck {
+		return nil
+	}
+
+	cliSrvName, err := clientServerName(pctx, proto)
+	if err != nil {
+		return fmt.Errorf("getting client server-name: %w", err)
+	}
+
+	if cliSrvName == hostSrvName || netutil.IsImmediateSubdomain(cliSrvName, hostSrvName) {
+		return nil
+	}
+
+	return fmt.Errorf(
+		"client server name %q doesn't match host server name %q",
+		cliSrvName,
+		hostSrvName,
+	)
 }
 
 // errAccessBlocked is a sentinel error returned when a request is blocked by
